@@ -421,6 +421,44 @@ def r7_directory_and_index(ctx, prog):
                                 file=f['file'], line=c['l'])
 
 
+# pairs of managers whose states are linked by an invariant: an entry point that touches both sides must do so in one critical section
+LINKED = [
+    ('session handles <-> session table',
+     {'HandleManager::addSession', 'HandleManager::sessionClosed', 'HandleManager::allSessionsClosed'},
+     {'SessionManager::openSession', 'SessionManager::closeSession', 'SessionManager::closeAllSessions'},
+     'a C_OpenSession that runs between the purge of the handle table and the deletion of the sessions keeps a handle to a Session that is deleted a moment later (use after free)'),
+    ('read-only sessions <-> SO login',
+     {'SessionManager::haveROSession'},
+     {'Token::loginSO'},
+     'a C_OpenSession without CKF_RW_SESSION that runs between the test for read-only sessions and the SO login succeeds: a read-only session exists while the SO is logged in'),
+]
+
+
+def r9_linked_managers(ctx, prog):
+    """Every manager protects its own table with its own mutex; the PKCS#11 entry points in SoftHSM.cpp hold none.  Where one entry point updates (or tests and then updates) two
+    managers whose states are linked, the two steps are separate critical sections - another thread's entry point fits in between.  The rule lists the entry points that touch both
+    sides of a linked pair without a mutex held across both calls."""
+    r = ctx.rule('C18.R9', 'an entry point that touches two managers whose states are linked does so under one mutex', floor=3, engine='E4 lock scopes over the linked-state table')
+    L = locks.analyse(prog)
+    for (q, sig), fl in sorted(L.items()):
+        f = fl.fn
+        if f.get('class') != 'SoftHSM':
+            continue
+        for name, left, right, why in LINKED:
+            a = [(c, held) for c, held in fl.calls if c.get('callee') in left]
+            b = [(c, held) for c, held in fl.calls if c.get('callee') in right]
+            if not a or not b:
+                continue
+            ctx.analysed(f)
+            site = name
+            common = set.intersection(*[set(h) for _, h in a + b])
+            if common:
+                r.ok(q, site, 'both sides under %s' % '/'.join(sorted(common)), file=f['file'], line=a[0][0]['l'])
+            else:
+                r.violation(q, site, '%s (line %s) and %s (line %s) are separate critical sections: %s' % (short(a[0][0]['callee']), a[0][0]['l'], short(b[0][0]['callee']), b[0][0]['l'], why),
+                            file=f['file'], line=min(a[0][0]['l'], b[0][0]['l']))
+
+
 def run(ctx):
     prog = ctx.prog('ossl-file')
     r1_discipline(ctx, prog)
@@ -429,6 +467,7 @@ def run(ctx):
     r5_split_sections(ctx, prog)
     r6_locking_mode(ctx, prog)
     r7_directory_and_index(ctx, prog)
+    r9_linked_managers(ctx, prog)
     from rules import c03
     c03.r1_login(ctx, prog, rule_id='C18.R8')
 
